@@ -41,6 +41,7 @@ class C01(Prop):
         nv = rng.choice([1, 2, 2, 3, 4])
         c = lang.GenCfg(vars=list(lang.VAR_POOL[:nv]), max_depth=rng.choice([1, 2, 3, 3, 4, 5]),
                         unless=True, max_bound=rng.choice([3, 6, 12]))
+        c.wide = 0.04          # a few windows of 64..200 samples
         if r < 0.2:
             c.transcend = True
         if r > 0.7:
